@@ -1,0 +1,109 @@
+//go:build verif
+
+package tm
+
+// Contracts for the deductive verifier under /verif (comment-only; build tag verif).
+// The lexer in this package is generated (templates in gen/) except for skipAction
+// (lexer_actions.go); the contracts are the family contract of generated lexers instantiated for
+// this grammar's tables, with token columns and start conditions.
+
+// ---- the constant tables of the generated lexer: facts proved from the literals ----
+
+//@ table tmRuneClass
+//@   fact len(tmRuneClass) == 127
+//@   fact forall i in 0..len(tmRuneClass) :: 0 <= tmRuneClass[i] && tmRuneClass[i] < 36
+
+//@ table tmStateMap
+//@   fact len(tmStateMap) == 4
+//@   fact forall i in 0..len(tmStateMap) :: tmStateMap[i] == 0 || tmStateMap[i] == 50 || tmStateMap[i] == 60
+
+//@ table tmLexerAction
+//@   fact len(tmLexerAction) == 62 * 36
+//@   fact forall i in 0..len(tmLexerAction) :: -85 <= tmLexerAction[i] && tmLexerAction[i] < 62
+// a start state has no accepting entry and no checkpoint: a token or a backup position is never empty
+//@   fact forall i in 0..36 :: tmLexerAction[i] == -4 || tmLexerAction[i] >= 0
+//@   fact forall i in 1800..1836 :: tmLexerAction[i] == -4 || tmLexerAction[i] >= 0
+//@   fact forall i in 2160..2196 :: tmLexerAction[i] == -4 || tmLexerAction[i] >= 0
+// at the end of the input a start state reports "no match" (which Next turns into EOI)
+//@   fact tmLexerAction[0] == -4 && tmLexerAction[50*36] == -4 && tmLexerAction[60*36] == -4
+// rule 1 (the end-of-input token) is never an accept action of the automaton: EOI comes from Next itself
+//@   fact forall i in 0..len(tmLexerAction) :: tmLexerAction[i] != -5
+
+//@ table tmBacktracking
+//@   fact len(tmBacktracking) == 6
+//@   fact forall i in 0..len(tmBacktracking) :: 0 <= tmBacktracking[i] && tmBacktracking[i] < 62
+//@   fact forall i in 0..len(tmBacktracking) :: i % 2 == 0 ==> tmBacktracking[i] >= 2
+
+//@ table tmToken
+//@   fact len(tmToken) == 82
+// only rule 1 maps to the EOI token
+//@   fact forall i in 0..len(tmToken) :: i != 1 ==> tmToken[i] != 0
+
+// ---- lexer state ----
+
+// wfWindow: the scanning window is inside the source; ch is the rune at offset (-1 exactly at the
+// end of the source) and scanOffset is just past its encoding.
+//@ pred wfWindow(l *Lexer) = 0 <= l.offset && l.offset <= l.scanOffset && l.scanOffset <= len(l.source) && (l.ch == -1 <==> l.offset == len(l.source)) && (l.offset == len(l.source) ==> l.scanOffset == l.offset) && (l.offset < len(l.source) ==> l.scanOffset > l.offset && l.scanOffset <= l.offset + 4 && 0 <= l.ch && l.ch <= 1114111)
+// wfChar: a newline rune is exactly one '\n' byte and no other rune contains that byte.
+//@ pred wfChar(l *Lexer) = (l.ch == 10 ==> l.scanOffset == l.offset + 1 && l.source[l.offset] == 10) && (l.ch != 10 ==> newlines(l.source, l.offset, l.scanOffset) == 0)
+// wfLine: line is one more than the number of newlines before offset.
+//@ pred wfLine(l *Lexer) = l.line == 1 + newlines(l.source, 0, l.offset)
+// wfCol: lineOffset is the start of the line that contains offset.
+//@ pred lineStart(s string, from int, at int) = 0 <= from && from <= at && newlines(s, from, at) == 0 && (from == 0 || s[from - 1] == 10)
+//@ pred wfCol(l *Lexer) = lineStart(l.source, l.lineOffset, l.offset)
+//@ pred wfState(l *Lexer) = 0 <= l.State && l.State < 4
+
+// rewind moves the window to `offset` (clamped to the end of the source) and re-establishes the
+// invariant, line and column bookkeeping included.
+//@ func Lexer.rewind
+//@   requires 0 <= l.offset && l.offset <= len(l.source) && wfLine(l) && 0 <= offset
+//@   modifies l.ch, l.offset, l.scanOffset, l.line, l.lineOffset
+//@   ensures wfWindow(l) && wfChar(l) && wfLine(l) && wfCol(l)
+//@   ensures l.offset == (offset > len(l.source) ? len(l.source) : offset)
+
+//@ func Lexer.Init
+//@   modifies l.source, l.ch, l.offset, l.scanOffset, l.tokenOffset, l.line, l.tokenLine, l.lineOffset, l.tokenColumn, l.State, l.inStatesSelector, l.prev
+//@   ensures wfWindow(l) && wfChar(l) && wfLine(l) && wfCol(l) && wfState(l) && l.source == source
+//@   ensures l.tokenOffset == 0 && (l.offset == 0 || l.offset == 3)
+
+// skipAction (hand-written): consumes a code block; the invariant is kept and the lexer only moves forward.
+//@ func Lexer.skipAction
+//@   requires wfWindow(l) && wfChar(l) && wfLine(l) && wfCol(l)
+//@   modifies l.ch, l.offset, l.scanOffset, l.line, l.lineOffset
+//@   ensures wfWindow(l) && wfChar(l) && wfLine(l) && wfCol(l) && old(l.offset) <= l.offset
+//@   loop 1:
+//@     invariant wfWindow(l) && wfChar(l) && wfLine(l) && wfCol(l) && old(l.offset) <= l.offset
+//@   loop 2:
+//@     invariant 0 <= l.offset && l.offset <= l.scanOffset && l.scanOffset <= len(l.source) && old(l.offset) <= l.scanOffset
+//@     invariant l.line == 1 + newlines(l.source, 0, l.scanOffset) && lineStart(l.source, l.lineOffset, l.scanOffset)
+
+// Next (C12): the invariant is kept; the token starts at or after the old offset and ends at the new
+// one (source order, no overlap); every token except EOI is non-empty; EOI is reported only at the
+// end of the source; tokenLine and tokenColumn are the line and the (byte) column of the token's
+// first byte. The text between the old offset and tokenOffset was consumed by iterations of the
+// restart loop, each of which matched the whitespace rule over a non-empty text.
+//@ func Lexer.Next
+//@   requires wfWindow(l) && wfChar(l) && wfLine(l) && wfCol(l) && wfState(l)
+//@   modifies l.ch, l.offset, l.scanOffset, l.tokenOffset, l.line, l.tokenLine, l.lineOffset, l.tokenColumn, l.value, l.State, l.inStatesSelector, l.prev
+//@   ensures wfWindow(l) && wfChar(l) && wfLine(l) && wfCol(l) && wfState(l)
+//@   ensures old(l.offset) <= l.tokenOffset && l.tokenOffset <= l.offset
+//@   ensures result != token.EOI ==> l.tokenOffset < l.offset
+//@   ensures result == token.EOI ==> l.tokenOffset == len(l.source) && l.offset == len(l.source)
+//@   ensures l.tokenLine == 1 + newlines(l.source, 0, l.tokenOffset)
+//@   ensures 1 <= l.tokenColumn && lineStart(l.source, l.tokenOffset - l.tokenColumn + 1, l.tokenOffset)
+//@   loop 1:
+//@     invariant wfWindow(l) && wfChar(l) && wfLine(l) && wfCol(l) && wfState(l) && old(l.offset) <= l.offset
+//@     decreases len(l.source) - l.offset
+//@   loop 2:
+//@     invariant wfWindow(l) && wfChar(l) && wfLine(l) && wfCol(l) && wfState(l)
+//@     invariant old(l.offset) <= l.tokenOffset && l.tokenOffset <= l.offset && l.tokenLine == 1 + newlines(l.source, 0, l.tokenOffset)
+//@     invariant 1 <= l.tokenColumn && lineStart(l.source, l.tokenOffset - l.tokenColumn + 1, l.tokenOffset)
+//@     invariant -85 <= state && state < 62 && (state <= -4 || state >= 0) && state != -5
+//@     invariant backupRule == -1 || (2 <= backupRule && backupRule < 62 && l.tokenOffset < backupOffset && backupOffset <= l.offset)
+//@     invariant l.offset == l.tokenOffset ==> (state == 0 || state == 50 || state == 60 || state == -4) && backupRule == -1
+//@   loop 3:
+//@     invariant wfWindow(l) && wfChar(l) && wfLine(l) && wfCol(l) && wfState(l)
+//@     invariant old(l.offset) <= l.tokenOffset && l.tokenOffset <= l.offset && l.tokenLine == 1 + newlines(l.source, 0, l.tokenOffset)
+//@     invariant 1 <= l.tokenColumn && lineStart(l.source, l.tokenOffset - l.tokenColumn + 1, l.tokenOffset)
+//@     invariant 0 <= rule && rule < 82 && rule != 1 && (rule != 0 ==> l.tokenOffset < l.offset)
+//@     invariant backupRule == -1 || (2 <= backupRule && backupRule < 62 && l.tokenOffset < backupOffset && backupOffset <= len(l.source))
